@@ -1,7 +1,12 @@
 // C07: run the real smodels reader on a byte string with a Recorder attached.
-// Case: N opts len bytes...      opts bit0 = claspExt, bit1 = cEdge, bit2 = cHeuristic, bit3 = filter,
+// Case: N opts len bytes... [mv] opts bit0 = claspExt, bit1 = cEdge, bit2 = cHeuristic, bit3 = filter,
 //                                bit4 = CALLER: 0 = readSmodels / readProgram (accept + parse(Complete)),
 //                                               1 = the step-wise API: accept(); parse(Incremental); while (more()) parse(Incremental);
+//   mv (optional, behind the text): 0 / absent = ProgramReader::setMaxVar is NOT called (varMax_ = INT_MAX, what readSmodels gives);
+//       k in 1..atomMax = reader.setMaxVar(k) before the text is read; -1 = setMaxVar(0); anything else: outside the model's domain (-3).
+//       "The given value is used when matching atoms or literals. If a larger value is found in the input stream, an std::exception is raised."
+//       SmodelsInput reads heads, the head count of choice/disjunctive rules, ALL body atoms and the atom of 91/92 with the member matchAtom
+//       (varMax_); symbol-table, compute and E-section atoms with matchPos(atomMax). Model: coq/C07/Model.v read_smodels_v.
 // Observation: <encoded calls in delivery order> status line nerr
 //   status 1 = accepted (the read returned 0), 0 = rejected through the error handler, 7 = an exception escaped
 //   line   = line passed to the error handler (0 when accepted), nerr = number of handler invocations
@@ -38,7 +43,9 @@ int main() {
 		ll opts = c.next();
 		size_t len = (size_t)c.next();
 		std::string in = c.bytes(len);
+		const ll mv = c.more() ? c.next() : 0;
 		if (opts & 6) { o.add(-3); o.flush(); continue; } // special-predicate conversion belongs to C08
+		if (mv < -1 || mv > (ll)Potassco::atomMax) { o.add(-3); o.flush(); continue; } // setMaxVar beyond atomMax: outside the domain
 		Potassco::SmodelsInput::Options op;
 		if (opts & 1) op.enableClaspExt();
 		if (opts & 2) op.convertEdges();
@@ -52,9 +59,10 @@ int main() {
 		try {
 			Recorder rec(o);
 			int r;
-			if (primed || stepwise) {
+			if (primed || stepwise || mv != 0) {
 				Potassco::SmodelsInput reader(rec, op);
 				if (primed) { reuse::prime(reader, primer); o.s.clear(); } // o is empty at this point: only the primer's calls are dropped
+				if (mv != 0) { reader.setMaxVar(mv < 0 ? 0u : static_cast<unsigned>(mv)); } // the limit applies to the case's text, not to the primer
 				r = stepwise ? readStepwise(is, reader, &onError)
 				             : Potassco::readProgram(is, reader, &onError); // = readSmodels on an existing reader object
 			}
